@@ -19,10 +19,12 @@ def _hook_calls():
 
 # Event._run_completion_hooks: for hook in hooks  (hooks = copy of on_complete taken before clearing)
 loop(F_EV, "Event._run_completion_hooks", 1, types={"results": lambda: Seq(Ref(Event)), "hook_result": lambda: HOOKRET},
+     modifies="world", keeps=[("Event", "on_complete")],
      inv=[("each-earlier-hook-called-exactly-once-in-order", lambda L: _calls_match(L)),
           ("list-already-cleared", lambda L: slen(L.self.on_complete) == 0)])
 # SimFuture._fire_callbacks: for cb in callbacks
 loop(F_SF, "SimFuture._fire_callbacks", 1, modifies="world", keeps=[("SimFuture", "_settle_callbacks")],
+     native_if_concrete=True,
      inv=[("each-earlier-callback-called-exactly-once-in-order", lambda L: _calls_match(L, "callbacks")),
           ("list-already-cleared", lambda L: slen(L.self._settle_callbacks) == 0)])
 
@@ -50,7 +52,8 @@ PROPERTY = {
                 "ContextVar get/set"],
     "assumptions": COMMON_ASSUMPTIONS + [
         "delays are non-negative numbers; float delay -> ns conversion is trunc(d*1e9) over reals (A-float)",
-        "the user generator and user callbacks/hooks are opaque and do not write engine state",
+        "the user generator and user callbacks/hooks are opaque (every call may change any heap state), preserve the "
+        "invariants of library objects, and do not register further hooks on the event that is finishing",
         "any_of / all_of are verified for 2 and 3 inputs (the *futures tuple has a concrete length in every call); "
         "the callback closures are arity-independent",
         "combinators nested in each other: a composite is itself a SimFuture under the same contracts (induction on depth, on paper)",
@@ -171,18 +174,28 @@ class _HookRet(T.Ty):
 
 
 HOOKRET = _HookRet()
-HOOKFN = Fn(HOOKRET, "hook")
+HOOKFN = Fn(HOOKRET, "hook", effect="world", keeps=[("Event", "on_complete")] + ENGINE_FRAME)
 CTX = Map(Str, Any)
 cls(Event, fields={"on_complete": Seq(HOOKFN)})
 cls(Entity, fields={"_crashed": Bool})
 cls(ProcessContinuation, fields={"process": GEN, "_send_value": Any})
-CALLBACK = Fn(None, "settle_cb")
+CALLBACK = Fn(None, "settle_cb", effect="world")
 cls(SimFuture, fields={"_resolved": Bool, "_value": Any, "_parked_process": Opt(GEN), "_parked_event_type": Opt(Str),
                        "_parked_daemon": Bool, "_parked_target": OptRef(Entity), "_parked_on_complete": Opt(Seq(HOOKFN)),
                        "_parked_context": Opt(CTX), "_settle_callbacks": Seq(CALLBACK)},
-    inv=[("parked-process-comes-with-its-metadata", lambda o: True if o._parked_process is None else
-          (o._parked_event_type is not None) and (o._parked_target is not None)
-          and (o._parked_on_complete is not None) and (o._parked_context is not None))])
+    inv=[("parked-process-comes-with-its-metadata", lambda o: implies(
+        Not(none_field(o, "_parked_process")),
+        Not(none_field(o, "_parked_event_type")) & Not(none_field(o, "_parked_target"))
+        & Not(none_field(o, "_parked_on_complete")) & Not(none_field(o, "_parked_context"))))])
+
+
+def none_field(o, name):
+    """`o.<name> is None` as one term (no fork)"""
+    owner, ty = REG.field(o._cls, name)
+    t = field_term(o, name)
+    if isinstance(ty, Ref):
+        return mk_bool(t == 0)
+    return mk_bool(ty.dt.is_none(t))
 
 
 def trunc_ns(x):
@@ -370,3 +383,107 @@ fn(SimFuture, "_park", args={"continuation": Ref(ProcessContinuation)}, setup=_s
    ensures=[("parks-or-resumes-at-once-if-already-resolved", _park_post)],
    raises={RuntimeError: [("only-when-another-process-is-parked-and-unresolved",
                            lambda s: (s.old(s.self)._parked_process is not None) and Not(s.old(s.self)._resolved))]})
+
+
+# =============================================================================== combinators
+# Driver functions run the REAL any_of / all_of / resolve code for every resolution order (the
+# order is a symbolic choice) on arbitrary fresh, distinct, unsettled input futures.
+def drive_any_of2(f1, f2, v1, v2, first_is_1):
+    c = any_of(f1, f2)
+    if first_is_1:
+        f1.resolve(v1)
+        f2.resolve(v2)
+    else:
+        f2.resolve(v2)
+        f1.resolve(v1)
+    return c
+
+
+def drive_all_of2(f1, f2, v1, v2, first_is_1):
+    c = all_of(f1, f2)
+    if first_is_1:
+        f1.resolve(v1)
+        mid = c._resolved
+        f2.resolve(v2)
+    else:
+        f2.resolve(v2)
+        mid = c._resolved
+        f1.resolve(v1)
+    return c, mid
+
+
+def drive_all_of3(f1, f2, f3, v1, v2, v3, order):
+    c = all_of(f1, f2, f3)
+    fs = [(f1, v1), (f2, v2), (f3, v3)]
+    perms = [(0, 1, 2), (0, 2, 1), (1, 0, 2), (1, 2, 0), (2, 0, 1), (2, 1, 0)]
+    from pyvc import ctx as _c
+    k = _c.cur().choose([num(order) == i for i in range(6)], site="perm")
+    mids = []
+    for j in perms[k]:
+        mids.append(c._resolved)
+        fs[j][0].resolve(fs[j][1])
+    return c, mids
+
+
+def drive_any_of_pre_resolved(f1, f2, v2):
+    # f1 is already resolved when any_of is built: the composite settles at registration
+    c = any_of(f1, f2)
+    before = c._resolved
+    f2.resolve(v2)
+    return c, before
+
+
+def _fresh_unsettled(*fs):
+    ok = True
+    for f in fs:
+        pass
+    for i in range(len(fs)):
+        for j in range(i + 1, len(fs)):
+            ok = ok & Not(same(fs[i], fs[j]))
+    return ok
+
+
+def _any_val(*xs):
+    return Any.unwrap(tuple(xs)) if len(xs) > 1 else Any.unwrap(xs[0])
+
+
+FUT = Ref(SimFuture)
+
+
+def _setup_drv(unsettled, resolved=()):
+    """input futures in a concrete 'fresh' state (no callbacks, nothing parked), so that the
+    callback loops run natively; `resolved` inputs are already resolved with an arbitrary value"""
+    def setup(s):
+        r = _setup_pc(s)
+        for n in unsettled + tuple(resolved):
+            f = getattr(s, n)
+            f._settle_callbacks = []
+            f._parked_process = None
+            f._resolved = n in resolved
+        return r
+    return setup
+
+
+ME = "specs.C02"
+fn(ME, "drive_any_of2", kind="function", setup=_setup_drv(("f1", "f2")), teardown=_teardown_pc,
+   args={"f1": FUT, "f2": FUT, "v1": Any, "v2": Any, "first_is_1": Bool},
+   requires=[lambda s: _fresh_unsettled(s.f1, s.f2)],
+   ensures=[("composite-holds-index-and-value-of-the-first-to-resolve", lambda s: s.result._resolved & mk_bool(
+       Any.unwrap(s.result._value) == z3.If(to_z3_bool(s.first_is_1), _any_val(0, s.v1), _any_val(1, s.v2))))])
+fn(ME, "drive_any_of_pre_resolved", kind="function", setup=_setup_drv(("f2",), ("f1",)), teardown=_teardown_pc,
+   args={"f1": FUT, "f2": FUT, "v2": Any},
+   requires=[lambda s: Not(same(s.f1, s.f2))],
+   ensures=[("settles-at-registration-with-the-already-resolved-input", lambda s: s.result[1] & s.result[0]._resolved
+             & mk_bool(Any.unwrap(s.result[0]._value) == _any_val(0, s.old(s.f1)._value)))])
+fn(ME, "drive_all_of2", kind="function", setup=_setup_drv(("f1", "f2")), teardown=_teardown_pc,
+   args={"f1": FUT, "f2": FUT, "v1": Any, "v2": Any, "first_is_1": Bool},
+   requires=[lambda s: _fresh_unsettled(s.f1, s.f2)],
+   ensures=[("not-before-the-last-input", lambda s: Not(s.result[1])),
+            ("all-values-in-argument-order", lambda s: s.result[0]._resolved & mk_bool(
+                Any.unwrap(s.result[0]._value) == Any.unwrap([s.v1, s.v2])))])
+fn(ME, "drive_all_of3", kind="function", setup=_setup_drv(("f1", "f2", "f3")), teardown=_teardown_pc,
+   args={"f1": FUT, "f2": FUT, "f3": FUT, "v1": Any, "v2": Any, "v3": Any, "order": Int},
+   requires=[lambda s: _fresh_unsettled(s.f1, s.f2, s.f3), lambda s: (s.order >= 0) & (s.order < 6)],
+   ensures=[("not-before-the-last-input", lambda s: sym_and(*[Not(m) for m in s.result[1]])),
+            ("all-values-in-argument-order-for-every-resolution-order", lambda s: s.result[0]._resolved & mk_bool(
+                Any.unwrap(s.result[0]._value) == Any.unwrap([s.v1, s.v2, s.v3])))])
